@@ -295,6 +295,12 @@ static int client_receive(struct client *client, struct ctl *ctl)
 
     switch (req->type) {
     case ctl_proto_type_get_attr_req:
+	if (memchr(req->get_attr_req.attr_name, '\0',
+		   sizeof(req->get_attr_req.attr_name)) == NULL) {
+	    LOG_CLIENT_MSG_MALFORMED(ctl->socket);
+	    client->is_response_pending = false;
+	    goto out;
+	}
 	process_get_attr(ctl->socket, &(req->get_attr_req), res);
 	break;
     case ctl_proto_type_get_all_attr_req:
